@@ -4,8 +4,12 @@ model stage : MC_Locate (Yaml = FALSE): a layout machine writes every document w
               nodes token by token and records the spans; on every finished document TLC checks
               the lemmas the binding relies on (spans are a layout, at most one token is located
               at an offset, NodeAt = innermost node, ValueAtPath(PathOf(n)) = n / the value a key
-              names).  MC_Locate_dup.cfg is the negative control: with duplicate keys InvPath
-              MUST fail (that is why the property excludes them).
+              names) and that LocateImpl.tla -- an implementation-shaped transcription of
+              locate.rs on the semi-index view (IB rank -> node, parent walk with
+              count_siblings_before / find_key_for_value) -- refines them on every qualifying
+              offset (InvImpl).  Negative controls: MC_Locate_dup.cfg (duplicate keys: InvPath
+              MUST fail, that is why the property excludes them) and MC_Locate_implmut.cfg
+              (`<` -> `<=` in count_siblings_before: InvImpl MUST fail).
 trace stage : generated JSON documents without duplicate keys (keys needing bracket notation,
               non-ASCII keys, keyword-like keys, nested containers, every kind of whitespace
               around tokens and around the document, escapes inside strings and keys) with the
@@ -219,6 +223,11 @@ def value_selftest(ctx, events, fmt):
 
 def model_stage(ctx, fmt):
     q = ctx.quick
+    if os.environ.get("VERIF_SKIP_MODEL") == "1":
+        # development aid for mutation runs (the model stage does not depend on /repo); never set
+        # by ./check itself, and recorded in the evidence when used
+        ctx.assumptions.append("VERIF_SKIP_MODEL=1: model stage skipped (development run)")
+        return
     vlib.model_check(ctx, "MC_Locate.tla", "MC_Locate_%s_%s.cfg" % (fmt, "quick" if q else "thorough"),
                      workers=4, timeout=3000)
     # negative control: with duplicate keys the path lemma must fail
@@ -226,6 +235,13 @@ def model_stage(ctx, fmt):
     if "InvPath" not in r.violated:
         raise vlib.ToolError("negative control MC_Locate_dup.cfg did not violate InvPath:\n" + r.out[-3000:])
     ctx.stage("model MC_Locate_dup.cfg (negative control)", r.wall, violated=r.violated)
+    if fmt == "json":
+        # second negative control: the implementation-shaped model with the Appendix A mutant
+        # (`<` -> `<=` in count_siblings_before) must NOT refine the abstract locate
+        r = vlib.tlc(ctx, "MC_Locate.tla", "MC_Locate_implmut.cfg", workers=2, timeout=600)
+        if "InvImpl" not in r.violated:
+            raise vlib.ToolError("negative control MC_Locate_implmut.cfg did not violate InvImpl:\n" + r.out[-3000:])
+        ctx.stage("model MC_Locate_implmut.cfg (negative control)", r.wall, violated=r.violated)
 
 
 def trace_stage(ctx, fmt, binname, ndocs, extra=()):
@@ -237,7 +253,7 @@ def trace_stage(ctx, fmt, binname, ndocs, extra=()):
     for f in os.listdir(sample_dir):
         os.unlink(os.path.join(sample_dir, f))
     rc, out, wall = vlib.sh([b, "record", tp, "seed=%d" % ctx.seed, "docs=%d" % ndocs,
-                             "sample=" + sample_dir, "nsample=%d" % (10 if ctx.quick else 40)] + list(extra),
+                             "sample=" + sample_dir, "nsample=%d" % (8 if ctx.quick else 40)] + list(extra),
                             timeout=1800)
     stats = json.loads(out.strip().splitlines()[-1])
     ctx.stage("record", wall, **stats)
@@ -246,7 +262,9 @@ def trace_stage(ctx, fmt, binname, ndocs, extra=()):
         raise vlib.ToolError("harness produced no locate events")
     n = vlib.check_trace(ctx, "Trace_Locate.tla", "Trace.cfg", tp, sig_of,
                          group_key=lambda e: e.get("e") == "build", timeout=2400,
-                         selftest=True, result_field="re" if fmt == "json" else "found")
+                         selftest=True, result_field="re" if fmt == "json" else "found",
+                         # `re` / `found` are RESULTS of the locate call in loc events only
+                         selftest_filter=lambda e: e.get("e") == "loc" and e.get("found") == 1)
     evs = vlib.read_ndjson(tp)
     if not ctx.violations:
         value_selftest(ctx, evs, fmt)
@@ -270,7 +288,7 @@ def trace_stage(ctx, fmt, binname, ndocs, extra=()):
 def run(ctx):
     q = ctx.quick
     model_stage(ctx, "json")
-    n, sample_dir, sig_of = trace_stage(ctx, "json", "c28", 110 if q else 1200)
+    n, sample_dir, sig_of = trace_stage(ctx, "json", "c28", 80 if q else 1200)
     ncli = 0
     if not ctx.violations:
         ncli = cli_stage(ctx, "json", sample_dir, sig_of)
